@@ -1,6 +1,7 @@
 package serialization
 
 import (
+	"bytes"
 	"encoding/json"
 	"fmt"
 	"io"
@@ -107,6 +108,10 @@ func (j *jsonStreamer) write(e px.Value) {
 		v, err = json.Marshal(e.String())
 	case px.Float:
 		v, err = json.Marshal(e.Float())
+		if err == nil && !bytes.ContainsAny(v, `.eE`) {
+			// keep an integral float a float: 1.0 is written 1.0, not 1
+			v = append(v, '.', '0')
+		}
 	case px.Integer:
 		v, err = json.Marshal(e.Int())
 	case px.Boolean:
